@@ -18,8 +18,12 @@ for d in seeded/${1:-C*}/; do
     echo -e "$name\tNOAPPLY\t-"; continue
   fi
   git -C $target apply /verif/$d/patch.diff
+  # the evidence file describes the unchanged tree: keep it across the seeded run
+  cp evidence/$id.json /tmp/evidence_$id.keep 2>/dev/null
   out=$(./run.sh $id quick 2>&1); rc=$?
   git -C $target checkout -- . >/dev/null 2>&1
+  [ -f /tmp/evidence_$id.keep ] && mv /tmp/evidence_$id.keep evidence/$id.json
+  rm -rf evidence/violations/$id-*.json 2>/dev/null
   first=$(echo "$out" | grep -E "VIOLATED|UNDECIDED" | grep -v BASELINE | head -1 | sed -E 's/^ *(VIOLATED|UNDECIDED) +[^ ]* +//' | cut -c1-160)
   [ -z "$first" ] && first=$(echo "$out" | grep -E "VIOLATED|UNDECIDED" | head -1 | sed -E 's/^ *(VIOLATED|UNDECIDED) +[^ ]* +//' | cut -c1-160)
   n=$(echo "$out" | grep -cE "VIOLATED|UNDECIDED")
